@@ -178,6 +178,11 @@ func genC18(t *rapid.T) (*DCase, map[string]bool) {
 		}
 	}
 	format.WriteString(g.literal())
+	if g.n(0, 11, "percentrun") == 0 {
+		// the format ends in a run of per-cent signs: pairs are per-cent signs, an odd one is left dangling
+		format.WriteString(strings.Repeat("%", g.n(1, 7, "npercent")))
+		g.labels["format-ends-in-a-run-of-percent-signs"] = true
+	}
 	if g.n(0, 5, "surplus") == 0 {
 		args = append(args, ast.Num("99"))
 		g.labels["surplus-argument"] = true
